@@ -308,3 +308,21 @@ Example ex_ranges :
   hint_range 10 (Some 5) = Some "bytes=10-14"%string /\
   segment_range None (Some 0) = Some "bytes=0-18446744073709551615"%string.
 Proof. repeat split; vm_compute; reflexivity. Qed.
+
+(* a VOD playlist without entries (the parser never produces one): error, no request *)
+Example ex_start_vod_empty :
+  xrun [xpl 0 [] true PTVod] = ([EvPlaylist 0 false], OErrNoSegments).
+Proof. vm_compute. reflexivity. Qed.
+
+(* an entry whose URI does not parse: the run stops there without a request *)
+Example ex_resolve_error :
+  run (fun _ r => if String.eqb r "seg1.ts" then None else Some r) "http://h/p.m3u8"
+      [xpl 0 [0; 1; 2] false PTNone; xpl 0 [0; 1; 2] false PTNone] =
+  ([EvPlaylist 0 false; EvSegment 0 0 0 (xseg 0); EvPlaylist 1 false], OErrResolve).
+Proof. vm_compute. reflexivity. Qed.
+
+(* several renditions: ErrClientEOS iff all ended *)
+Example ex_client_result :
+  client_result [OEOS; OEOS] OEOS = true /\ client_result [OEOS; OErrNext] OEOS = false /\
+  client_result [OEOS; OErrNext] OErrNext = true /\ client_result [OEOS; OErrNext] OErrTooLate = false.
+Proof. repeat split; reflexivity. Qed.
